@@ -550,6 +550,96 @@ theorem select_abs (s : Arr Bool) (w : IW) (x y : Arr Int) (h1 : x.length = y.le
   | panic => rw [hk] at hs; cases hs
 
 
+theorem abs_len (c : Col) : c.abs.len = c.len := by
+  cases c <;> simp [Col.abs, SCol.len, Col.len, vals]
+
+theorem abs_divisorOk (op : ArithOp) (c : Col) : c.abs.divisorOk op = c.divisorOk op := by
+  cases c <;> rfl
+
+theorem vals_replicate_null {α} (n : Nat) (d : α) :
+    vals (List.replicate n (⟨false, d⟩ : Slot α)) = List.replicate n none := by
+  simp [vals, Slot.val]
+
+/-- Column-level K for arithmetic, operands of type NULL included (since /repo 26c93c7). -/
+theorem arith_col_abs (op : ArithOp) (ca cb : Col) (hl : ca.len = cb.len) :
+    (Col.arith op ca cb).map Col.abs = specArithCol op ca.abs cb.abs := by
+  unfold Col.arith specArithCol
+  rw [abs_divisorOk]
+  cases hd : Col.divisorOk op cb
+  · simp [KOut.map]
+  · simp only [Bool.not_true, Bool.false_eq_true, if_false]
+    cases ca <;> cases cb <;> first
+      | (simp only [Col.abs]
+         rw [map_abs_int, arith_pointwise _ _ _ _ (by simpa [Col.len] using hl)])
+      | simp [Col.abs, KOut.map]
+
+/-- Column-level K for comparisons, operands of type NULL included. -/
+theorem cmp_col_abs (op : CmpOp) (ca cb : Col) :
+    (Col.cmp op ca cb).map Col.abs = specCmpCol op ca.abs cb.abs := by
+  cases ca <;> cases cb <;> first
+    | (simp only [Col.cmp, Col.abs, specCmpCol]
+       rw [map_abs_bool, cmp_pointwise])
+    | simp [Col.cmp, Col.abs, specCmpCol, KOut.map, Col.len, SCol.len, vals, Slot.val]
+
+theorem asBoolArr_abs (c : Col) : c.abs.asBool = (c.asBoolArr).map vals := by
+  cases c <;> simp [Col.abs, SCol.asBool, Col.asBoolArr, vals_replicate_null]
+
+/-- Column-level K for AND / OR, operands of type NULL included. -/
+theorem and_col_abs (ca cb : Col) : (Col.and ca cb).map Col.abs = specAndCol ca.abs cb.abs := by
+  unfold Col.and specAndCol
+  rw [asBoolArr_abs, asBoolArr_abs]
+  cases ca.asBoolArr <;> cases cb.asBoolArr <;> simp [KOut.map]
+  rename_i a b
+  rw [← and_pointwise]
+  cases andK a b <;> simp [KOut.map, Col.abs]
+
+theorem or_col_abs (ca cb : Col) : (Col.or ca cb).map Col.abs = specOrCol ca.abs cb.abs := by
+  unfold Col.or specOrCol
+  rw [asBoolArr_abs, asBoolArr_abs]
+  cases ca.asBoolArr <;> cases cb.asBoolArr <;> simp [KOut.map]
+  rename_i a b
+  rw [← or_pointwise]
+  cases orK a b <;> simp [KOut.map, Col.abs]
+
+/-- Column-level K for CASE: every accepted branch type, two untyped NULLs included. -/
+theorem ite_col_abs (cc ct ce : Col) (h1 : cc.len = ct.len) (h2 : ct.len = ce.len) :
+    (Col.select cc ct ce).map Col.abs = specIteCol cc.abs ct.abs ce.abs := by
+  cases cc with
+  | bool s =>
+    cases ct with
+    | int wa x =>
+      cases ce with
+      | int wb y =>
+        by_cases hw : wa = wb
+        · subst hw
+          simp only [Col.abs, specIteCol, beq_self_eq_true, if_true]
+          exact select_abs s wa x y (by simpa [Col.len] using h2) (by simpa [Col.len] using h1)
+        · have hb : (wa == wb) = false := by simpa using hw
+          simp [Col.select, Col.abs, specIteCol, KOut.map, hb]
+      | null k => simp [Col.select, Col.abs, specIteCol, KOut.map]
+      | bool y => simp [Col.select, Col.abs, specIteCol, KOut.map]
+      | str y => simp [Col.select, Col.abs, specIteCol, KOut.map]
+    | bool x =>
+      cases ce with
+      | bool y =>
+        simp only [Col.abs, specIteCol]
+        exact select_abs_bool s x y (by simpa [Col.len] using h2) (by simpa [Col.len] using h1)
+      | null k => simp [Col.select, Col.abs, specIteCol, KOut.map]
+      | int w y => simp [Col.select, Col.abs, specIteCol, KOut.map]
+      | str y => simp [Col.select, Col.abs, specIteCol, KOut.map]
+    | str x =>
+      cases ce with
+      | str y =>
+        simp only [Col.abs, specIteCol]
+        exact select_abs_str s x y (by simpa [Col.len] using h2) (by simpa [Col.len] using h1)
+      | null k => simp [Col.select, Col.abs, specIteCol, KOut.map]
+      | int w y => simp [Col.select, Col.abs, specIteCol, KOut.map]
+      | bool y => simp [Col.select, Col.abs, specIteCol, KOut.map]
+    | null k => cases ce <;> simp [Col.select, Col.abs, specIteCol, KOut.map]
+  | null k => cases ct <;> cases ce <;> simp [Col.select, Col.abs, specIteCol, KOut.map]
+  | int w s => cases ct <;> cases ce <;> simp [Col.select, Col.abs, specIteCol, KOut.map]
+  | str s => cases ct <;> cases ce <;> simp [Col.select, Col.abs, specIteCol, KOut.map]
+
 /-- Composition over whole expression trees: an expression evaluated on a well-formed chunk
 (arrays of ANY length n, any raw garbage under NULL) for which no node raises a reason tag — i.e.
 every forced hypothesis of the node theorems holds on the actual intermediate arrays — denotes,
@@ -580,8 +670,8 @@ theorem eval_tree_pointwise (chunk : List Col) (n : Nat) (hwf : ChunkWF chunk n)
       try rw [hb]
       cases rb with
       | ok cb =>
-        simp only [List.append_eq_nil_iff] at ht
-        obtain ⟨⟨hta, htb⟩, htg⟩ := ht
+        simp only [List.append_nil, List.append_eq_nil_iff] at ht
+        obtain ⟨hta, htb⟩ := ht
         have ea := iha (by rw [ha]; exact hta)
         have eb := ihb (by rw [hb]; exact htb)
         rw [ha] at ea; rw [hb] at eb
@@ -590,10 +680,7 @@ theorem eval_tree_pointwise (chunk : List Col) (n : Nat) (hwf : ChunkWF chunk n)
         have lb := evalK_len chunk n hwf b cb (by rw [hb])
         rw [← ea, ← eb]
         simp only
-        cases ca <;> cases cb <;> first
-          | (simp only [Col.arith, Col.abs] at htg ⊢
-             rw [map_abs_int, arith_pointwise _ _ _ _ (by simpa [Col.len] using la.trans lb.symm)])
-          | (simp [Col.arith, Col.abs, KOut.map, Col.ty] at htg ⊢)
+        exact arith_col_abs op ca cb (la.trans lb.symm)
       | err =>
         simp only [List.append_eq_nil_iff] at ht
         have ea := iha (by rw [ha]; exact ht.1)
@@ -630,8 +717,8 @@ theorem eval_tree_pointwise (chunk : List Col) (n : Nat) (hwf : ChunkWF chunk n)
       try rw [hb]
       cases rb with
       | ok cb =>
-        simp only [List.append_eq_nil_iff] at ht
-        obtain ⟨⟨hta, htb⟩, htg⟩ := ht
+        simp only [List.append_nil, List.append_eq_nil_iff] at ht
+        obtain ⟨hta, htb⟩ := ht
         have ea := iha (by rw [ha]; exact hta)
         have eb := ihb (by rw [hb]; exact htb)
         rw [ha] at ea; rw [hb] at eb
@@ -640,10 +727,7 @@ theorem eval_tree_pointwise (chunk : List Col) (n : Nat) (hwf : ChunkWF chunk n)
         have lb := evalK_len chunk n hwf b cb (by rw [hb])
         rw [← ea, ← eb]
         simp only
-        cases ca <;> cases cb <;> first
-          | (simp only [Col.cmp, Col.abs] at htg ⊢
-             rw [map_abs_bool, cmp_pointwise])
-          | (simp [Col.cmp, Col.abs, KOut.map, Col.ty] at htg ⊢)
+        exact cmp_col_abs op ca cb
       | err =>
         simp only [List.append_eq_nil_iff] at ht
         have ea := iha (by rw [ha]; exact ht.1)
@@ -680,8 +764,8 @@ theorem eval_tree_pointwise (chunk : List Col) (n : Nat) (hwf : ChunkWF chunk n)
       try rw [hb]
       cases rb with
       | ok cb =>
-        simp only [List.append_eq_nil_iff] at ht
-        obtain ⟨⟨hta, htb⟩, htg⟩ := ht
+        simp only [List.append_nil, List.append_eq_nil_iff] at ht
+        obtain ⟨hta, htb⟩ := ht
         have ea := iha (by rw [ha]; exact hta)
         have eb := ihb (by rw [hb]; exact htb)
         rw [ha] at ea; rw [hb] at eb
@@ -690,10 +774,7 @@ theorem eval_tree_pointwise (chunk : List Col) (n : Nat) (hwf : ChunkWF chunk n)
         have lb := evalK_len chunk n hwf b cb (by rw [hb])
         rw [← ea, ← eb]
         simp only
-        cases ca <;> cases cb <;> first
-          | (simp only [Col.and, Col.abs, SCol.asBool] at htg ⊢
-             rw [map_abs_bool, and_pointwise])
-          | (simp [Col.and, Col.abs, KOut.map, Col.ty, SCol.asBool] at htg ⊢)
+        exact and_col_abs ca cb
       | err =>
         simp only [List.append_eq_nil_iff] at ht
         have ea := iha (by rw [ha]; exact ht.1)
@@ -730,8 +811,8 @@ theorem eval_tree_pointwise (chunk : List Col) (n : Nat) (hwf : ChunkWF chunk n)
       try rw [hb]
       cases rb with
       | ok cb =>
-        simp only [List.append_eq_nil_iff] at ht
-        obtain ⟨⟨hta, htb⟩, htg⟩ := ht
+        simp only [List.append_nil, List.append_eq_nil_iff] at ht
+        obtain ⟨hta, htb⟩ := ht
         have ea := iha (by rw [ha]; exact hta)
         have eb := ihb (by rw [hb]; exact htb)
         rw [ha] at ea; rw [hb] at eb
@@ -740,10 +821,7 @@ theorem eval_tree_pointwise (chunk : List Col) (n : Nat) (hwf : ChunkWF chunk n)
         have lb := evalK_len chunk n hwf b cb (by rw [hb])
         rw [← ea, ← eb]
         simp only
-        cases ca <;> cases cb <;> first
-          | (simp only [Col.or, Col.abs, SCol.asBool] at htg ⊢
-             rw [map_abs_bool, or_pointwise])
-          | (simp [Col.or, Col.abs, KOut.map, Col.ty, SCol.asBool] at htg ⊢)
+        exact or_col_abs ca cb
       | err =>
         simp only [List.append_eq_nil_iff] at ht
         have ea := iha (by rw [ha]; exact ht.1)
@@ -775,8 +853,8 @@ theorem eval_tree_pointwise (chunk : List Col) (n : Nat) (hwf : ChunkWF chunk n)
     try rw [ha]
     cases ra with
     | ok ca =>
-        simp only [List.append_eq_nil_iff] at ht
-        obtain ⟨hta, htg⟩ := ht
+        simp only [List.append_nil] at ht
+        have hta := ht
         have ea := iha (by rw [ha]; exact hta)
         rw [ha] at ea
         simp only [KOut.map] at ea
@@ -784,9 +862,9 @@ theorem eval_tree_pointwise (chunk : List Col) (n : Nat) (hwf : ChunkWF chunk n)
         rw [← ea]
         simp only
         cases ca <;> first
-          | (simp only [Col.not, Col.abs, SCol.asBool, KOut.map]
+          | (simp only [Col.not, Col.abs, KOut.map]
              rw [not_pointwise])
-          | (simp [Col.not, Col.abs, KOut.map, Col.ty, SCol.asBool] at htg ⊢)
+          | (simp [Col.not, Col.abs, KOut.map])
     | err =>
       have ea := iha (by rw [ha]; exact ht)
       rw [ha] at ea; simp only [KOut.map] at ea
@@ -804,8 +882,8 @@ theorem eval_tree_pointwise (chunk : List Col) (n : Nat) (hwf : ChunkWF chunk n)
     try rw [ha]
     cases ra with
     | ok ca =>
-        simp only [List.append_eq_nil_iff] at ht
-        obtain ⟨hta, htg⟩ := ht
+        simp only [List.append_nil] at ht
+        have hta := ht
         have ea := iha (by rw [ha]; exact hta)
         rw [ha] at ea
         simp only [KOut.map] at ea
@@ -816,7 +894,7 @@ theorem eval_tree_pointwise (chunk : List Col) (n : Nat) (hwf : ChunkWF chunk n)
         | int w x =>
           simp only [Col.abs]
           exact neg_abs w x
-        | null k => simp [Col.ty] at htg
+        | null k => simp [Col.neg, Col.abs, KOut.map]
         | bool x => simp [Col.neg, Col.abs, KOut.map]
         | str x => simp [Col.neg, Col.abs, KOut.map]
     | err =>
@@ -892,8 +970,8 @@ theorem eval_tree_pointwise (chunk : List Col) (n : Nat) (hwf : ChunkWF chunk n)
       try rw [hb]
       cases rb with
       | ok cb =>
-        simp only [List.append_eq_nil_iff] at ht
-        obtain ⟨⟨hta, htb⟩, htg⟩ := ht
+        simp only [List.append_nil, List.append_eq_nil_iff] at ht
+        obtain ⟨hta, htb⟩ := ht
         have ea := iha (by rw [ha]; exact hta)
         have eb := ihb (by rw [hb]; exact htb)
         rw [ha] at ea; rw [hb] at eb
@@ -905,7 +983,7 @@ theorem eval_tree_pointwise (chunk : List Col) (n : Nat) (hwf : ChunkWF chunk n)
         cases ca <;> cases cb <;> first
           | (simp only [Col.abs]
              exact concat_abs _ _)
-          | (simp [Col.concat, Col.abs, KOut.map, Col.ty] at htg ⊢)
+          | (simp [Col.concat, Col.abs, KOut.map])
       | err =>
         simp only [List.append_eq_nil_iff] at ht
         have ea := iha (by rw [ha]; exact ht.1)
@@ -937,8 +1015,8 @@ theorem eval_tree_pointwise (chunk : List Col) (n : Nat) (hwf : ChunkWF chunk n)
     try rw [ha]
     cases ra with
     | ok ca =>
-        simp only [List.append_eq_nil_iff] at ht
-        obtain ⟨hta, htg⟩ := ht
+        simp only [List.append_nil] at ht
+        have hta := ht
         have ea := iha (by rw [ha]; exact hta)
         rw [ha] at ea
         simp only [KOut.map] at ea
@@ -947,7 +1025,7 @@ theorem eval_tree_pointwise (chunk : List Col) (n : Nat) (hwf : ChunkWF chunk n)
         simp only
         cases ca with
         | str x => simp only [Col.abs]; exact like_abs p x
-        | null k => simp [Col.ty] at htg
+        | null k => simp [Col.like, Col.abs, KOut.map]
         | bool x => simp [Col.like, Col.abs, KOut.map]
         | int w x => simp [Col.like, Col.abs, KOut.map]
     | err =>
@@ -967,8 +1045,8 @@ theorem eval_tree_pointwise (chunk : List Col) (n : Nat) (hwf : ChunkWF chunk n)
     try rw [ha]
     cases ra with
     | ok ca =>
-        simp only [List.append_eq_nil_iff] at ht
-        obtain ⟨hta, htg⟩ := ht
+        simp only [List.append_nil] at ht
+        have hta := ht
         have ea := iha (by rw [ha]; exact hta)
         rw [ha] at ea
         simp only [KOut.map] at ea
@@ -977,7 +1055,7 @@ theorem eval_tree_pointwise (chunk : List Col) (n : Nat) (hwf : ChunkWF chunk n)
         simp only
         cases ca with
         | str x => simp only [Col.abs]; exact replace_abs f t x
-        | null k => simp [Col.ty] at htg
+        | null k => simp [Col.replace, Col.abs, KOut.map]
         | bool x => simp [Col.replace, Col.abs, KOut.map]
         | int w x => simp [Col.replace, Col.abs, KOut.map]
     | err =>
@@ -1002,8 +1080,8 @@ theorem eval_tree_pointwise (chunk : List Col) (n : Nat) (hwf : ChunkWF chunk n)
       try rw [hb]
       cases rb with
       | ok cb =>
-        simp only [List.append_eq_nil_iff] at ht
-        obtain ⟨⟨hta, htb⟩, htg⟩ := ht
+        simp only [List.append_nil, List.append_eq_nil_iff] at ht
+        obtain ⟨hta, htb⟩ := ht
         have ea := ihs (by rw [ha]; exact hta)
         have eb := ihk (by rw [hb]; exact htb)
         rw [ha] at ea; rw [hb] at eb
@@ -1019,13 +1097,13 @@ theorem eval_tree_pointwise (chunk : List Col) (n : Nat) (hwf : ChunkWF chunk n)
             cases w <;> first
               | (simp only [Col.abs]
                  exact repeat_abs _ _)
-              | (simp [Col.repeat_, Col.abs, KOut.map, Col.ty] at htg ⊢)
-          | null k => simp [Col.ty] at htg
+              | (simp [Col.repeat_, Col.abs, KOut.map])
+          | null k => simp [Col.repeat_, Col.abs, KOut.map]
           | bool y => simp [Col.repeat_, Col.abs, KOut.map]
           | str y => simp [Col.repeat_, Col.abs, KOut.map]
-        | null k => simp [Col.ty] at htg
-        | bool x => cases cb <;> simp [Col.repeat_, Col.abs, KOut.map, Col.ty] at htg ⊢
-        | int w x => cases cb <;> simp [Col.repeat_, Col.abs, KOut.map, Col.ty] at htg ⊢
+        | null k => cases cb <;> simp [Col.repeat_, Col.abs, KOut.map]
+        | bool x => cases cb <;> simp [Col.repeat_, Col.abs, KOut.map]
+        | int w x => cases cb <;> simp [Col.repeat_, Col.abs, KOut.map]
       | err =>
         simp only [List.append_eq_nil_iff] at ht
         have ea := ihs (by rw [ha]; exact ht.1)
@@ -1067,8 +1145,8 @@ theorem eval_tree_pointwise (chunk : List Col) (n : Nat) (hwf : ChunkWF chunk n)
         try rw [h3]
         cases r3 with
         | ok c3 =>
-          simp only [List.append_eq_nil_iff] at ht
-          obtain ⟨⟨⟨ht1, ht2⟩, ht3⟩, htg⟩ := ht
+          simp only [List.append_nil, List.append_eq_nil_iff] at ht
+          obtain ⟨⟨ht1, ht2⟩, ht3⟩ := ht
           have e1 := ihc (by rw [h1]; exact ht1)
           have e2 := iht (by rw [h2]; exact ht2)
           have e3 := ihe (by rw [h3]; exact ht3)
@@ -1079,44 +1157,7 @@ theorem eval_tree_pointwise (chunk : List Col) (n : Nat) (hwf : ChunkWF chunk n)
           have l3 := evalK_len chunk n hwf e c3 (by rw [h3])
           rw [← e1, ← e2, ← e3]
           simp only
-          cases c1 with
-          | bool s =>
-            cases c2 with
-            | int wa x =>
-              cases c3 with
-              | int wb y =>
-                by_cases hw : wa = wb
-                · subst hw
-                  simp only [beq_self_eq_true, if_true, Col.abs, SCol.asBool] at htg ⊢
-                  exact select_abs s wa x y (by simpa [Col.len] using l2.trans l3.symm)
-                    (by simpa [Col.len] using l1.trans l2.symm)
-                · have hb : (wa == wb) = false := by simpa using hw
-                  simp [Col.select, Col.abs, SCol.asBool, KOut.map, hb]
-              | null k => simp [Col.ty] at htg
-              | bool y => simp [Col.select, Col.abs, SCol.asBool, KOut.map]
-              | str y => simp [Col.select, Col.abs, SCol.asBool, KOut.map]
-            | null k => simp [Col.ty] at htg
-            | bool x =>
-              cases c3 with
-              | bool y =>
-                simp only [Col.abs, SCol.asBool]
-                exact select_abs_bool s x y (by simpa [Col.len] using l2.trans l3.symm)
-                  (by simpa [Col.len] using l1.trans l2.symm)
-              | null k => simp [Col.ty] at htg
-              | int w y => simp [Col.select, Col.abs, SCol.asBool, KOut.map]
-              | str y => simp [Col.select, Col.abs, SCol.asBool, KOut.map]
-            | str x =>
-              cases c3 with
-              | str y =>
-                simp only [Col.abs, SCol.asBool]
-                exact select_abs_str s x y (by simpa [Col.len] using l2.trans l3.symm)
-                  (by simpa [Col.len] using l1.trans l2.symm)
-              | null k => simp [Col.ty] at htg
-              | int w y => simp [Col.select, Col.abs, SCol.asBool, KOut.map]
-              | bool y => simp [Col.select, Col.abs, SCol.asBool, KOut.map]
-          | null k => simp [Col.ty] at htg
-          | int w s => cases c2 <;> cases c3 <;> simp [Col.select, Col.abs, SCol.asBool, KOut.map, Col.ty] at htg ⊢
-          | str s => cases c2 <;> cases c3 <;> simp [Col.select, Col.abs, SCol.asBool, KOut.map, Col.ty] at htg ⊢
+          exact ite_col_abs c1 c2 c3 (l1.trans l2.symm) (l2.trans l3.symm)
         | err =>
           simp only [List.append_eq_nil_iff] at ht
           have e1 := ihc (by rw [h1]; exact ht.1.1)
@@ -1174,8 +1215,8 @@ theorem eval_tree_pointwise (chunk : List Col) (n : Nat) (hwf : ChunkWF chunk n)
         try rw [h3]
         cases r3 with
         | ok c3 =>
-          simp only [List.append_eq_nil_iff] at ht
-          obtain ⟨⟨⟨ht1, ht2⟩, ht3⟩, htg⟩ := ht
+          simp only [List.append_nil, List.append_eq_nil_iff] at ht
+          obtain ⟨⟨ht1, ht2⟩, ht3⟩ := ht
           have e1 := ihs (by rw [h1]; exact ht1)
           have e2 := ihb (by rw [h2]; exact ht2)
           have e3 := ihc (by rw [h3]; exact ht3)
@@ -1196,15 +1237,15 @@ theorem eval_tree_pointwise (chunk : List Col) (n : Nat) (hwf : ChunkWF chunk n)
                   | (simp only [Col.substring, Col.abs, KOut.map]
                      rw [substring_abs])
                   | (simp [Col.substring, Col.abs, KOut.map])
-              | null k => simp [Col.ty] at htg
+              | null k => cases w1 <;> simp [Col.substring, Col.abs, KOut.map]
               | bool z => cases w1 <;> simp [Col.substring, Col.abs, KOut.map]
               | str z => cases w1 <;> simp [Col.substring, Col.abs, KOut.map]
-            | null k => simp [Col.ty] at htg
-            | bool y => cases c3 <;> simp [Col.substring, Col.abs, KOut.map, Col.ty] at htg ⊢
-            | str y => cases c3 <;> simp [Col.substring, Col.abs, KOut.map, Col.ty] at htg ⊢
-          | null k => simp [Col.ty] at htg
-          | bool x => cases c2 <;> cases c3 <;> simp [Col.substring, Col.abs, KOut.map, Col.ty] at htg ⊢
-          | int w x => cases c2 <;> cases c3 <;> simp [Col.substring, Col.abs, KOut.map, Col.ty] at htg ⊢
+            | null k => cases c3 <;> simp [Col.substring, Col.abs, KOut.map]
+            | bool y => cases c3 <;> simp [Col.substring, Col.abs, KOut.map]
+            | str y => cases c3 <;> simp [Col.substring, Col.abs, KOut.map]
+          | null k => cases c2 <;> cases c3 <;> simp [Col.substring, Col.abs, KOut.map]
+          | bool x => cases c2 <;> cases c3 <;> simp [Col.substring, Col.abs, KOut.map]
+          | int w x => cases c2 <;> cases c3 <;> simp [Col.substring, Col.abs, KOut.map]
         | err =>
           simp only [List.append_eq_nil_iff] at ht
           have e1 := ihs (by rw [h1]; exact ht.1.1)
@@ -1245,6 +1286,17 @@ theorem eval_tree_pointwise (chunk : List Col) (n : Nat) (hwf : ChunkWF chunk n)
       rw [← e1]; rfl
 
 /-! ## LIKE -/
+
+/-- Since /repo 26c93c7 (operands of type NULL have kernel arms) no node of the evaluator model
+raises a reason tag any more: every forced hypothesis has been discharged by a repair. -/
+theorem evalK_no_tags (chunk : List Col) (n : Nat) (e : KExpr) : (evalK chunk n e).2 = [] := by
+  induction e <;> simp only [evalK] <;> (repeat' split) <;> simp_all
+
+/-- `eval_tree_pointwise` without side condition: on a well-formed chunk every expression tree — NULL
+constants as operands included — denotes, row by row, its SQL value (or the same error class). -/
+theorem eval_tree_pointwise_total (chunk : List Col) (n : Nat) (hwf : ChunkWF chunk n) (e : KExpr) :
+    (evalK chunk n e).1.map Col.abs = specEval (chunk.map Col.abs) n e :=
+  eval_tree_pointwise chunk n hwf e (evalK_no_tags chunk n e)
 
 /-- K for LIKE — holds in full since /repo 1ee6bdb (`like_to_regex` escapes literal characters and
 sets `(?s)`): SQL LIKE on every non-NULL row, NULL on NULL rows, for every pattern; no pattern
@@ -1417,20 +1469,19 @@ theorem one_row_null_int (w : IW) (a : Arr Int) (hl : (Col.int w a).len = 1)
 theorem arith_strict (op : ArithOp) (ca cb c : Col) (la : ca.len = 1) (lb : cb.len = 1)
     (hn : ca.get0 = .null ∨ cb.get0 = .null) (hk : Col.arith op ca cb = .ok c) :
     c.get0 = .null := by
-  cases ca <;> cases cb <;> simp [Col.arith] at hk
-  rename_i wa a wb b
-  cases hr : arithK op (wa.max wb) a b <;> simp [hr, KOut.map] at hk
-  subst hk
-  match a, b, la, lb with
-  | [s], [t], _, _ =>
-    unfold arithK tryBinaryOp at hr
-    rcases hn with hn | hn
-    · have hv := one_row_null_int wa [s] rfl hn s (by simp)
-      cases hd : op.safens <;>
-        simp [hd, safenDividend, zipSlotM, trySlot, hv] at hr <;> (subst hr; simp [Col.get0])
-    · have hv := one_row_null_int wb [t] rfl hn t (by simp)
-      cases hd : op.safens <;>
-        simp [hd, safenDividend, zipSlotM, trySlot, hv] at hr <;> (subst hr; simp [Col.get0])
+  rcases arith_inv op ca cb c hk with ⟨wa, a, wb, b, r, rfl, rfl, hr, rfl⟩ | ⟨k, _, rfl⟩ | ⟨k, _, rfl⟩
+  · match a, b, la, lb with
+    | [s], [t], _, _ =>
+      unfold arithK tryBinaryOp at hr
+      rcases hn with hn | hn
+      · have hv := one_row_null_int wa [s] rfl hn s (by simp)
+        cases hd : op.safens <;>
+          simp [hd, safenDividend, zipSlotM, trySlot, hv] at hr <;> (subst hr; simp [Col.get0])
+      · have hv := one_row_null_int wb [t] rfl hn t (by simp)
+        cases hd : op.safens <;>
+          simp [hd, safenDividend, zipSlotM, trySlot, hv] at hr <;> (subst hr; simp [Col.get0])
+  · rfl
+  · rfl
 
 theorem one_row_null_bool (a : Arr Bool) (hl : (Col.bool a).len = 1)
     (hg : (Col.bool a).get0 = .null) : ∀ s ∈ a, s.valid = false := by
@@ -1467,34 +1518,57 @@ theorem cmpK_invalid {α} (f : α → α → Bool) (a b : Arr α) (c : Arr Bool)
   obtain ⟨t, ht, rfl⟩ := hs
   exact this t ht
 
+theorem get0_replicate_null (n : Nat) :
+    (Col.bool (List.replicate n (⟨false, false⟩ : Slot Bool))).get0 = .null := by
+  cases n <;> simp [Col.get0, List.replicate]
+
 theorem cmp_strict (op : CmpOp) (ca cb c : Col) (la : ca.len = 1) (lb : cb.len = 1)
     (hn : ca.get0 = .null ∨ cb.get0 = .null) (hk : Col.cmp op ca cb = .ok c) :
     c.get0 = .null := by
-  cases ca <;> cases cb <;> simp [Col.cmp] at hk
-  · rename_i a b
-    cases hr : cmpK (fun x y => op.onOrd (boolOrd x y)) a b <;> simp [hr, KOut.map] at hk
-    subst hk
-    apply get0_invalid_bool
-    apply cmpK_invalid _ a b _ _ hr
-    rcases hn with hn | hn
-    · exact Or.inl (one_row_null_bool a la hn)
-    · exact Or.inr (one_row_null_bool b lb hn)
-  · rename_i wa a wb b
-    cases hr : cmpK op.onInt a b <;> simp [hr, KOut.map] at hk
-    subst hk
-    apply get0_invalid_bool
-    apply cmpK_invalid _ a b _ _ hr
-    rcases hn with hn | hn
-    · exact Or.inl (one_row_null_int wa a la hn)
-    · exact Or.inr (one_row_null_int wb b lb hn)
-  · rename_i a b
-    cases hr : cmpK (fun x y => op.onOrd (strOrd x y)) a b <;> simp [hr, KOut.map] at hk
-    subst hk
-    apply get0_invalid_bool
-    apply cmpK_invalid _ a b _ _ hr
-    rcases hn with hn | hn
-    · exact Or.inl (one_row_null_str a la hn)
-    · exact Or.inr (one_row_null_str b lb hn)
+  cases ca with
+  | null k => cases cb <;> (simp only [Col.cmp] at hk; cases hk; exact get0_replicate_null _)
+  | bool a =>
+    cases cb with
+    | bool b =>
+      simp only [Col.cmp] at hk
+      cases hr : cmpK (fun x y => op.onOrd (boolOrd x y)) a b <;> simp [hr, KOut.map] at hk
+      subst hk
+      apply get0_invalid_bool
+      apply cmpK_invalid _ a b _ _ hr
+      rcases hn with hn | hn
+      · exact Or.inl (one_row_null_bool a la hn)
+      · exact Or.inr (one_row_null_bool b lb hn)
+    | null k => simp only [Col.cmp] at hk; cases hk; exact get0_replicate_null _
+    | int w b => simp [Col.cmp] at hk
+    | str b => simp [Col.cmp] at hk
+  | int wa a =>
+    cases cb with
+    | int wb b =>
+      simp only [Col.cmp] at hk
+      cases hr : cmpK op.onInt a b <;> simp [hr, KOut.map] at hk
+      subst hk
+      apply get0_invalid_bool
+      apply cmpK_invalid _ a b _ _ hr
+      rcases hn with hn | hn
+      · exact Or.inl (one_row_null_int wa a la hn)
+      · exact Or.inr (one_row_null_int wb b lb hn)
+    | null k => simp only [Col.cmp] at hk; cases hk; exact get0_replicate_null _
+    | bool b => simp [Col.cmp] at hk
+    | str b => simp [Col.cmp] at hk
+  | str a =>
+    cases cb with
+    | str b =>
+      simp only [Col.cmp] at hk
+      cases hr : cmpK (fun x y => op.onOrd (strOrd x y)) a b <;> simp [hr, KOut.map] at hk
+      subst hk
+      apply get0_invalid_bool
+      apply cmpK_invalid _ a b _ _ hr
+      rcases hn with hn | hn
+      · exact Or.inl (one_row_null_str a la hn)
+      · exact Or.inr (one_row_null_str b lb hn)
+    | null k => simp only [Col.cmp] at hk; cases hk; exact get0_replicate_null _
+    | bool b => simp [Col.cmp] at hk
+    | int w b => simp [Col.cmp] at hk
 
 theorem concat_strict (ca cb c : Col) (la : ca.len = 1) (lb : cb.len = 1)
     (hn : ca.get0 = .null ∨ cb.get0 = .null) (hk : Col.concat ca cb = .ok c) :
@@ -1530,21 +1604,36 @@ theorem neg_strict (ca c : Col) (la : ca.len = 1) (hn : ca.get0 = .null)
       have hs := hinv s (by simp)
       simp [Col.neg, tryUnaryOp, hs] at hk
       subst hk; simp [Col.get0]
-  | null k => simp [Col.neg] at hk
+  | null k => simp [Col.neg] at hk; subst hk; rfl
   | bool x => simp [Col.neg] at hk
   | str x => simp [Col.neg] at hk
 
 
+/-- A one-row operand of AND / OR seen as a Boolean array: same length, same value. -/
+theorem asBoolArr_one (c : Col) (a : Arr Bool) (h : c.asBoolArr = some a) (l : c.len = 1) :
+    a.length = 1 ∧ (Col.bool a).get0 = c.get0 := by
+  cases c with
+  | bool x => simp [Col.asBoolArr] at h; subst h; exact ⟨l, rfl⟩
+  | null k =>
+    simp [Col.asBoolArr] at h; subst h
+    simp [Col.len] at l; subst l
+    simp [Col.get0, List.replicate]
+  | int w x => simp [Col.asBoolArr] at h
+  | str x => simp [Col.asBoolArr] at h
+
 theorem and_fold_value (ca cb c : Col) (la : ca.len = 1) (lb : cb.len = 1)
     (hn : ca.get0 = .null ∨ cb.get0 = .null) (hk : Col.and ca cb = .ok c) :
     c.get0 = logicShortcut true ca.get0 cb.get0 := by
-  cases ca <;> cases cb <;> simp [Col.and] at hk
-  rename_i a b
-  match a, b, la, lb with
+  obtain ⟨a, b, r, ha, hb, hr, rfl⟩ := and_inv ca cb c hk
+  obtain ⟨la', ga⟩ := asBoolArr_one ca a ha la
+  obtain ⟨lb', gb⟩ := asBoolArr_one cb b hb lb
+  rw [← ga, ← gb] at hn ⊢
+  clear ga gb ha hb hk la lb
+  match a, b, la', lb' with
   | [s], [t], _, _ =>
-    rw [andK_eq] at hk
-    simp [zipSlotM, KOut.map] at hk
-    subst hk
+    rw [andK_eq] at hr
+    simp [zipSlotM, KOut.map] at hr
+    subst hr
     rcases s with ⟨sv, sr⟩
     rcases t with ⟨tv, tr⟩
     cases sv <;> cases sr <;> cases tv <;> cases tr <;>
@@ -1553,13 +1642,16 @@ theorem and_fold_value (ca cb c : Col) (la : ca.len = 1) (lb : cb.len = 1)
 theorem or_fold_value (ca cb c : Col) (la : ca.len = 1) (lb : cb.len = 1)
     (hn : ca.get0 = .null ∨ cb.get0 = .null) (hk : Col.or ca cb = .ok c) :
     c.get0 = logicShortcut false ca.get0 cb.get0 := by
-  cases ca <;> cases cb <;> simp [Col.or] at hk
-  rename_i a b
-  match a, b, la, lb with
+  obtain ⟨a, b, r, ha, hb, hr, rfl⟩ := or_inv ca cb c hk
+  obtain ⟨la', ga⟩ := asBoolArr_one ca a ha la
+  obtain ⟨lb', gb⟩ := asBoolArr_one cb b hb lb
+  rw [← ga, ← gb] at hn ⊢
+  clear ga gb ha hb hk la lb
+  match a, b, la', lb' with
   | [s], [t], _, _ =>
-    rw [orK_eq] at hk
-    simp [zipSlotM, KOut.map] at hk
-    subst hk
+    rw [orK_eq] at hr
+    simp [zipSlotM, KOut.map] at hr
+    subst hr
     rcases s with ⟨sv, sr⟩
     rcases t with ⟨tv, tr⟩
     cases sv <;> cases sr <;> cases tv <;> cases tr <;>
